@@ -28,7 +28,7 @@ Domain decisions
     would be looking at a dead export).
 Mechanisms: escape-<kind> where kind is the (single) hostile feature of the case:
   dotdot-class-name, absolute-class-name, empty-segment-class-name, dot-segment-class-name, long-segment-class-name,
-  backslash-class-name, unterminated-class-name, method-name, benign-names.
+  backslash-class-name, unterminated-class-name, nul-in-class-name, inner-semicolon-class-name, method-name, benign-names.
 """
 import contextlib
 import io
@@ -78,6 +78,10 @@ def class_kind(name):
     segs = core.split("/")
     if ".." in segs:
         return "dotdot-class-name"
+    if "\x00" in name:
+        return "nul-in-class-name"
+    if ";" in core:
+        return "inner-semicolon-class-name"
     if not name.endswith(";"):
         return "unterminated-class-name"
     if segs[0] == "" and len(segs) > 1:
@@ -105,6 +109,11 @@ FIXED_CLASS_NAMES = [
     "L./x;", "La/./b;", "L.;", "L./.;", "L.../x;", "L..a/x;", "La../x;",
     "L" + LONG300 + ";", "La/" + LONG300 + "/b;", "L" + SEG255 + ";", "L" + SEG256 + "/x;", "L" + "/".join(["d" * 200] * 25) + ";",
     "L..\\..\\x;", "La\\b;", "L\\abs\\x;", "LC:\\x;", "L..\\;", "La/..\\../b;",
+    # characters a cleaning step may drop AFTER the '..' filter ran (NUL is C0 80 in the DEX), a ';' inside the name (a matcher that stops at
+    # the first complete descriptor), look-alike dots
+    "L.\x00./.\x00./esc/Evil;", "L..\x00/sibling/Evil2;", "L\x00../x;", "La/.\x00./.\x00./.\x00./b;", "L\x00/x;", "La\x00b/c;",
+    "La;/../../esc/Evil2;", "Lcom/example/Plain;/../../../../sibling/Evil3;", "La;b/../../x;", "L;/../x;", "La;/x;",
+    "L\uff0e\uff0e/x;", "L\u2024\u2024/x;", "L..\t/x;", "L..\n/x;", "L%2e%2e/x;",
 ]
 BENIGN_CLASS_NAMES = ["La/b/C;", "LTop;", "Lcom/example/deep/er/X$1;", "Lok/A;", "Lp/CON;", "Lp/a b;", "Lé/中;"]
 FIXED_METHOD_NAMES = [
@@ -153,6 +162,7 @@ def gen_cases(ctx):
         "long": ["a", LONG300, SEG255, SEG256],
         "backslash": ["..\\..\\x", "a\\b", "\\abs", "C:\\x", "..\\", "\\..", "a"],
         "mixed": ["..", ".", "", "a", "b", "...", "..a", " ", "a b", "..\\..", SEG255, LONG300, "CON", "é"],
+        "special": ["..", ".\x00.", "..\x00", "\x00..", "a;", ";", "..;", "a", "esc", "b\x00"],
     }
     mpieces = ["..", ".", "", "x", "y", "zz", "a b", "..\\..", "...", "<init>", SEG255]
     seen = set(json.dumps(c["classes"]) for c in cases)
